@@ -2008,3 +2008,14 @@ pub fn run(ctx: &Ctx) {
         |c: &MergeCase| check_merge_case(c, skip_repeats),
     );
 }
+
+/// Well-formed datagrams of every response kind (seed corpus for the fuzz target).
+pub fn seed_datagrams() -> Vec<Vec<u8>> {
+    let mut v = Vec::new();
+    for kind in KINDS {
+        for n in [0usize, 2, 5] {
+            v.push(datagram(kind, &PRE, &base_payload(kind, n)));
+        }
+    }
+    v
+}
